@@ -38,7 +38,7 @@ type c04gcfg struct {
 	targets []int    // nodes that may be expelled
 	maxX    int      // largest expel set
 	mode    string   // "all": one palette of all expel sets of size 1; "pairs": one palette per unordered pair of distinct expel sets of size 1..maxX
-	orders  string   // "all" | "few"
+	orders  string   // "all" | "few" (4) | "two"
 }
 
 func (c c04gcfg) name() string {
@@ -155,6 +155,9 @@ func (c c04gcfg) arrivalOrders() [][]int {
 		id[i], rev[i] = i, c.n-1-i
 	}
 	out := [][]int{id, rev}
+	if c.orders == "two" {
+		return out
+	}
 	// the two rotations that make a middle / the last voter arrive first
 	for _, k := range []int{c.n / 2, c.n - 1} {
 		rot := make([]int, c.n)
@@ -201,7 +204,7 @@ func c04gconfigs(thorough bool) []c04gcfg {
 		out = append(out, c04gcfg{n: 4, th: 67, plain: ab, withX: ab, targets: []int{1, 2, 3}, maxX: 1, mode: "all", orders: "all"})
 		out = append(out, c04gcfg{n: 4, th: 67, accept: true, plain: ab, withX: ab, targets: []int{1, 2, 3}, maxX: 1, mode: "all", orders: "few"})
 		// five members, two expel sets of one or two nodes (two expels exceed f = 1: the reduced-quorum branch), INIT
-		out = append(out, c04gcfg{n: 5, th: 67, plain: a, withX: ab, targets: []int{3, 4}, maxX: 2, mode: "pairs", orders: "few"})
+		out = append(out, c04gcfg{n: 5, th: 67, plain: a, withX: ab, targets: []int{3, 4}, maxX: 2, mode: "pairs", orders: "two"})
 		return out
 	}
 	for _, th := range []base.Threshold{67, 60, 75} {
@@ -316,6 +319,9 @@ all:
 		r.Set("palettes_"+c.name(), len(pals))
 		r.Set("arrival_orders_"+c.name(), len(orders))
 		for pi, pal := range pals {
+			if rid, rp := r.Replaying(); rp && !strings.HasPrefix(rid, fmt.Sprintf("%s/p%d/", c.name(), pi)) {
+				continue
+			}
 			menu := c.menu(pal)
 			if pi == 0 {
 				r.Set("menu_"+c.name(), len(menu))
@@ -358,12 +364,18 @@ all:
 
 func c04gset(r *vlib.Run, c c04gcfg, fx *c04fx, pi int, menu []c04gchoice, idx []int, orders [][]int, st *c04gstats) {
 	names := make([]string, c.n)
+	for i := 0; i < c.n; i++ {
+		names[i] = menu[idx[i]].String()
+	}
+	setID := fmt.Sprintf("%s/p%d/%s", c.name(), pi, strings.Join(names, ","))
+	if rid, rp := r.Replaying(); rp && !strings.HasPrefix(rid, setID+"/") {
+		return
+	}
 	evs := make([]c04ev, c.n)
 	voted := 0
 	xfacts := map[string]bool{}
 	for i := 0; i < c.n; i++ {
 		ch := menu[idx[i]]
-		names[i] = ch.String()
 		if ch.variant == "-" {
 			continue
 		}
@@ -376,7 +388,6 @@ func c04gset(r *vlib.Run, c c04gcfg, fx *c04fx, pi int, menu []c04gchoice, idx [
 	if voted == 0 {
 		return
 	}
-	setID := fmt.Sprintf("%s/p%d/%s", c.name(), pi, strings.Join(names, ","))
 	st.sets++
 	if len(xfacts) >= 2 {
 		st.multi++
